@@ -190,7 +190,16 @@ def derivation(fi: FuncInfo, expr: ast.AST, is_source: Callable[[ast.AST], bool]
             return
         if isinstance(e, ast.Call):
             if isinstance(e.func, ast.Attribute):
-                args = ",".join(q.unparse(a) for a in e.args)
+                kw = {k.arg: k.value for k in e.keywords if k.arg}
+                pos = list(e.args)
+                order = {"split": ("sep", "maxsplit"), "rsplit": ("sep", "maxsplit"), "partition": ("sep",), "rpartition": ("sep",), "lstrip": ("chars",), "rstrip": ("chars",), "strip": ("chars",),
+                         "replace": ("old", "new", "count")}.get(e.func.attr, ())
+                for nm_ in order[len(pos):]:
+                    if nm_ in kw:
+                        pos.append(kw.pop(nm_))
+                    else:
+                        break
+                args = ", ".join([q.unparse(a) for a in pos] + ["%s=%s" % (k_, q.unparse(v_)) for k_, v_ in sorted(kw.items())])
                 recv = q.dotted(e.func.value)
                 if recv is not None and recv.split(".")[0] in ("self", "cls", "escape", "urllib", "httputil", "os") and len(e.args) == 1 and not e.keywords:
                     # a helper function/method applied to the argument (data flows through the argument, not the receiver)
